@@ -1,21 +1,139 @@
 package props
 
-import "verif/engine/explore"
+import (
+	"fmt"
+	"strings"
+
+	"verif/engine/explore"
+	"verif/engine/harness"
+	"verif/engine/memnet"
+	"verif/engine/script"
+
+	"context"
+	wire "github.com/jeroenrinzema/psql-wire"
+)
 
 // C15 — Concurrent connections are isolated and free of data races.
-// Scenarios: verif/engine/sched/c15.go (instrumented + -race build).
+//
+// Two parts, merged into one evidence file:
+//   - schedule part (verif/engine/sched/c15.go, instrumented + -race build): all schedules of small
+//     scenarios up to a preemption bound, differential oracle + race monitor;
+//   - serial part (this file, plain build): the degenerate interleavings in which one connection has
+//     completely finished before the next one starts. Every ordered pair (predecessor, subject) of a
+//     corpus of canonical sessions is served on ONE server; the subject's transcript and callbacks must
+//     equal those of the subject served alone on a fresh server. This is where state that an EARLIER
+//     connection leaves behind in the server (free lists, caches, cleared hooks, shared tables) shows.
+
+func c15Serve(srv *harness.Server, w *c04World, s c04Session) ([]string, []string, string) {
+	mc := memnet.NewConn("mem:subject")
+	w.rec.Conn = nil
+	n := len(w.events)
+	mc.Push(s.stream())
+	mc.EOF()
+	srv.ConnectWith(mc)
+	st := mc.AwaitClose()
+	if st == memnet.Closed {
+		harness.Settle()
+	}
+	t, _ := harness.CanonTranscript(mc.Output())
+	return t, append([]string(nil), w.events[n:]...), st.String()
+}
+
+func c15NewServer(auth bool) (*harness.Server, *c04World, error) {
+	w := &c04World{rec: &script.Rec{Extra: copyHandler}}
+	opts := []wire.OptionFn{wire.MessageBufferSize(c04Limit), wire.TerminateConn(func(ctx context.Context) error { w.ev("terminate hook"); return nil }),
+		wire.SessionMiddleware(func(ctx context.Context) (context.Context, error) { w.ev("session middleware"); return ctx, nil })}
+	if auth {
+		opts = append(opts, wire.SessionAuthStrategy(wire.ClearTextPassword(func(ctx context.Context, db, u, pw string) (context.Context, bool, error) {
+			w.ev("validate %q %q %q", db, u, pw)
+			return ctx, pw == "good", nil
+		})))
+	}
+	srv, err := harness.NewServer(c04Parse(w), opts...)
+	return srv, w, err
+}
+
+var c15AloneCache = map[string][3]any{}
+
+func c15RunSerial(pred, subj c04Session) explore.Result {
+	var res explore.Result
+	res.Outcome = "serial"
+	res.Key = pred.Name + " => " + subj.Name
+	alone, ok := c15AloneCache[subj.Name]
+	if !ok {
+		srv, w, err := c15NewServer(subj.Auth)
+		if err != nil {
+			res.Engine = err.Error()
+			return res
+		}
+		t, e, st := c15Serve(srv, w, subj)
+		srv.Stop()
+		alone = [3]any{t, e, st}
+		c15AloneCache[subj.Name] = alone
+	}
+	srv, w, err := c15NewServer(subj.Auth)
+	if err != nil {
+		res.Engine = err.Error()
+		return res
+	}
+	defer srv.Stop()
+	c15Serve(srv, w, pred) // the predecessor connection: served completely, then gone
+	t, e, st := c15Serve(srv, w, subj)
+	at, ae, ast := alone[0].([]string), alone[1].([]string), alone[2].(string)
+	if !sameStrings(t, at) || st != ast {
+		res.Fail("transcript-differs-from-alone", fmt.Sprintf("session %q served after an earlier connection (%q) on the same server received\n  %v (%s)\nbut served alone on a fresh server it receives\n  %v (%s)", subj.Name, pred.Name, clipList(t), st, clipList(at), ast))
+	}
+	if !sameStrings(e, ae) {
+		res.Fail("callbacks-differ-from-alone", fmt.Sprintf("session %q after %q: callbacks\n  %v\nalone:\n  %v", subj.Name, pred.Name, clipList(e), clipList(ae)))
+	}
+	res.Trans = []string{"fresh server|" + strings.SplitN(pred.Name, " / ", 2)[0] + " predecessor|served subject"}
+	return res
+}
+
+func clipList(s []string) []string {
+	if len(s) > 14 {
+		return append(append([]string(nil), s[:14]...), fmt.Sprintf("… (%d more)", len(s)-14))
+	}
+	return s
+}
+
+func c15Corpus() []c04Session {
+	var out []c04Session
+	for _, s := range c04Sessions() {
+		if s.NoPrefix || strings.Contains(s.Name, " / ") && strings.Count(s.Name, " / ") > 1 && !strings.HasSuffix(s.Name, "terminate") {
+			continue // keep the single-body sessions (with and without Terminate), drop the pair sessions
+		}
+		out = append(out, s)
+	}
+	return out
+}
 
 func init() {
 	explore.Register(&explore.Check{
 		ID:        "C15",
 		Level:     "model_checking",
 		Build:     "sched-race",
-		Technique: "stateless model checking of the real code under a cooperative scheduler (check-time instrumentation), all schedules up to a preemption bound with happens-before state caching; every schedule is also a race-detector execution whose happens-before graph contains only the library's own synchronisation (scheduler hand-offs are hidden with RaceDisable/RaceEnable)",
-		Rule:      "scenarios S-A (typed rows text vs int4), S-B (same statement / portal names, different queries and values), S-C (different users + configured global parameters), S-F (one connection in its error / skip-until-Sync window while the other works), S-G (two cleartext-password authentications interleaving), thorough: S-D (3 connections mixed), S-E (COPY-in vs queries); client scripts pre-loaded one message per segment; handlers carry yield points; all schedules with <= 2 preemptions (quick); thorough: ALL schedules (unbounded, happens-before state cache) for S-A, S-C, S-G and <= 3 preemptions for the others; oracle 1: every connection's transcript and callback trace equal those of the same script served alone; oracle 2: no data-race report",
+		Technique: "stateless model checking of the real code under a cooperative scheduler (check-time instrumentation), all schedules up to a preemption bound with happens-before state caching; every schedule is also a race-detector execution whose happens-before graph contains only the library's own synchronisation (scheduler hand-offs are hidden with RaceDisable/RaceEnable); plus exhaustive enumeration of ordered pairs of sessions served one after the other on one server",
+		Rule:      "schedule part: scenarios S-A (typed rows text vs int4), S-B (same statement / portal names, different queries and values), S-C (different users + configured global parameters), S-F (one connection in its error / skip-until-Sync window while the other works), S-G (two cleartext-password authentications interleaving), S-H (a CancelRequest connection, then a connection registering a private type and one needing it), S-I (one handler waits for another connection's handler), thorough: S-D (3 connections mixed), S-E (COPY-in vs queries); client scripts pre-loaded one message per segment; handlers carry yield points; all schedules with <= 2 preemptions (quick); thorough: ALL schedules (unbounded, happens-before state cache) for S-A, S-C, S-G, S-I and <= 3 preemptions for the others; oracle 1: every connection's transcript and callback trace equal those of the same script served alone; oracle 2: no data-race report. Serial part: every ordered pair (predecessor, subject) over a corpus of canonical sessions (startup / SSL refusal / auth / cancel x simple, extended, failing, COPY, oversized, unknown, terminate) on one server, subject compared with itself served alone",
 		Assumptions: []string{
 			"the race clause relies on the Go race detector's happens-before precision; pgx and the standard library are observed, not instrumented",
 			"per-connection trace recorders are lock-free so that the harness adds no happens-before edge between connections",
+			"a connection that has finished before the next one starts is a (degenerate) interleaving of simultaneous connections",
 		},
-		Custom: explore.SchedCustom("C15", true),
+		Enumerate: func(tier string, emit explore.Emit) {
+			corpus := c15Corpus()
+			for _, pred := range corpus {
+				for _, subj := range corpus {
+					if pred.Auth != subj.Auth {
+						continue // one server, one authentication configuration
+					}
+					pred, subj := pred, subj
+					emit(explore.Case{Family: "serial-pairs", Size: 2,
+						Desc: func() any { return map[string]any{"earlier_connection": pred.Name, "subject_connection": subj.Name} },
+						Run:  func() explore.Result { return c15RunSerial(pred, subj) }})
+				}
+			}
+		},
+		After: explore.MergeSched("C15", true),
 	})
 }
